@@ -6,8 +6,12 @@
 
 _Static_assert(ATTR_PATH_INDEX_START == '[' && ATTR_PATH_INDEX_END == ']' && ATTR_PATH_KEY_DELIM == '.', "AP_SPECIAL in _ghost.h matches attr_path.h");
 #define AP_BASE_FRESH (__CPROVER_is_fresh(xv_ap_base, AP_STR_MAX))
+#ifdef XV_AP_E1
+#define AP_BASE_STR (xv_ap_len <= AP_END && xv_ap_base[AP_END] == 0)
+#else
 #define AP_BASE_STR (xv_ap_len <= AP_END && xv_ap_base[AP_END] == 0 && \
                      __CPROVER_forall { size_t q_; (q_ < AP_END) ==> (q_ >= AP_END - xv_ap_len ==> xv_ap_base[q_] != 0) })
+#endif
 #define AP_START (xv_ap_base + (AP_END - xv_ap_len))
 /* p points at a character (or the NUL) of a string that passed the length gate */
 /* (pointer_in_range_dfcc, not same_object: symex resolves dereferences through value sets, an assumed same_object on a
@@ -18,11 +22,16 @@ _Static_assert(ATTR_PATH_INDEX_START == '[' && ATTR_PATH_INDEX_END == ']' && ATT
 /* a key component made by the parser: own object, own NUL-terminated key of n >= 1 key characters */
 #define AP_IS_KEY(c, n) (__CPROVER_is_fresh((c), sizeof(struct attr_pcomp)) && (c)->type == attr_pcomp_type_key && \
                          __CPROVER_is_fresh((c)->key, (size_t)(n) + 1) && (c)->key[n] == 0)
+/* the slot a component pointer is stored into: writable and still NULL (attr_path_parse gets its array from ut_calloc).
+ * w_ok, not is_fresh: the harness hands in a slot it initialised itself, so that symex knows its old content (a slot made
+ * by is_fresh holds a nondeterministic pointer, whose dereference in the ensures clauses fans out over every object of
+ * the program: 2M variables) */
+#define AP_SLOT(comp) (__CPROVER_w_ok((comp), sizeof(*(comp))) && *(comp) == NULL)
 #define AP_IS_INDEX(c) (__CPROVER_is_fresh((c), sizeof(struct attr_pcomp)) && (c)->type == attr_pcomp_type_index)
 
 /* ---- attr_pcomp_parse_key: longest non-empty run of key characters at path_str */
 static int attr_pcomp_parse_key(const char *path_str, struct attr_pcomp **comp)
-__CPROVER_requires(AP_BASE_FRESH && __CPROVER_is_fresh(comp, sizeof(*comp)))
+__CPROVER_requires(AP_BASE_FRESH && AP_SLOT(comp))
 __CPROVER_requires(AP_BASE_STR)
 __CPROVER_requires(AP_INSIDE(path_str))
 __CPROVER_assigns(*comp)
@@ -39,7 +48,7 @@ __CPROVER_ensures(AP_RV > 0 ==> !AP_KEYCHAR(path_str[AP_RV]))
 
 /* ---- attr_pcomp_parse_index: "<index>]" at path_str (the '[' was consumed by the caller) */
 static int attr_pcomp_parse_index(const char *path_str, struct attr_pcomp **comp)
-__CPROVER_requires(AP_BASE_FRESH && __CPROVER_is_fresh(comp, sizeof(*comp)))
+__CPROVER_requires(AP_BASE_FRESH && AP_SLOT(comp))
 __CPROVER_requires(AP_BASE_STR)
 __CPROVER_requires(AP_INSIDE(path_str))
 __CPROVER_assigns(*comp, xv_ap_strtol_val, xv_ap_strtol_used)
